@@ -658,7 +658,7 @@ impl Prop for C19 {
          the query lines, 1-3 after every step). Predicates: querykit trees of depth <= 3 over = != < <= > >= BETWEEN IN IS [NOT] NULL NOT AND OR \
          (literals from the data +-1, NULL inside IN lists, column-column comparisons), plus same-column comparison pairs in all 36 operator \
          combinations (maybe_range) and inverted / empty ranges; ieval trees are hand-built ScalarIndexExpr shapes (NOT NOT, NOT of AND/OR). \
-         12% of the cases carry a malformed line. A case is non-trivial if an indexed scan used an index query."
+         1 case in 6 is a partial compaction (index A, append, index B on both fragments, a delete / update that only hits the first fragment, compact, queries on every column). 12% of the other cases carry a malformed line. A case is non-trivial if an indexed scan used an index query."
             .into()
     }
 
@@ -1009,7 +1009,68 @@ mod gen {
         }
     }
 
+    fn index_line(rng: &mut Rng, c: usize) -> String {
+        match rng.below(5) {
+            0 | 1 => format!("index c{c} btree z{}", rng.range(1, 4)),
+            2 => format!("index c{c} btree"),
+            _ => format!("index c{c} bitmap"),
+        }
+    }
+
+    fn scan_line(p: &C19, e: &Expr) -> String {
+        let o = p.optimized(e);
+        format!("scan {} => {}", querykit::show(e), o.as_ref().map(querykit::show).unwrap_or_else(|| "?".into()))
+    }
+
+    /// a compaction that rewrites only part of the fragments an index covers: index A on the first fragment, an append,
+    /// index B (and sometimes C) on both fragments, deletions / updates that only hit the first fragment (column c0 of the
+    /// first batch holds 100.., which the append never uses), compact, then queries on every indexed column
+    fn partial_compaction(p: &C19, rng: &mut Rng) -> Vec<String> {
+        let mut lines = vec![];
+        let mut first = rows(rng, 4, 10);
+        for (i, r) in first.iter_mut().enumerate() {
+            r[0] = Some(100 + i as i64);
+        }
+        let second = rows(rng, 3, 8);
+        lines.push(format!("create {}", show_rows(&first)));
+        let a = rng.usize(K);
+        lines.push(index_line(rng, a));
+        lines.push(format!("append {}", show_rows(&second)));
+        let b = (a + 1 + rng.usize(K - 1)) % K;
+        lines.push(index_line(rng, b));
+        if rng.chance(1, 2) {
+            lines.push(index_line(rng, (0..K).find(|c| *c != a && *c != b).unwrap()));
+        }
+        let victim = 100 + rng.usize(first.len()) as i64;
+        let e = if rng.chance(1, 2) { Expr::Cmp(Cmp::Eq, 0, Operand::Lit(victim)) } else { Expr::Cmp(Cmp::Ge, 0, Operand::Lit(victim)) };
+        let o = querykit::show(&p.optimized(&e).unwrap_or(e.clone()));
+        if rng.chance(2, 3) {
+            lines.push(format!("delete {} => {o}", querykit::show(&e)));
+        } else {
+            lines.push(format!("update c{} {} {} => {o}", 1 + rng.usize(K - 1), show_cell(&cell(rng)), querykit::show(&e)));
+        }
+        lines.push("compact".into());
+        let mut shadow = first;
+        shadow.extend(second);
+        for c in 0..K {
+            let v = lit(rng);
+            lines.push(scan_line(p, &Expr::Cmp(*rng.pick(&[Cmp::Eq, Cmp::Le, Cmp::Gt]), c, Operand::Lit(v))));
+            lines.push(scan_line(p, &Expr::IsNull(c)));
+        }
+        for _ in 0..3 {
+            lines.push(scan_line(p, &pred(rng, &shadow)));
+        }
+        if rng.chance(1, 2) {
+            lines.push("optimize".into());
+            lines.push(scan_line(p, &pred(rng, &shadow)));
+        }
+        lines
+    }
+
     pub fn case(p: &C19, rng: &mut Rng) -> Vec<String> {
+        if rng.chance(1, 6) {
+            return partial_compaction(p, rng);
+        }
         let mut lines = vec![];
         let mut shadow = if rng.chance(1, 4) { rows(rng, 12, 30) } else { rows(rng, 4, 12) };
         lines.push(format!("create {}", show_rows(&shadow)));
